@@ -106,6 +106,12 @@ func pivotOperator(_ *dataTreeNavigator, context Context, _ *ExpressionNode) (Co
 		if err != nil {
 			return Context{}, err
 		}
+		// a tag can be put on a node of another kind (!!map [1]): the rows are read by kind
+		for _, row := range candidate.Content {
+			if (tag == "!!seq" && row.Kind != SequenceNode) || (tag == "!!map" && row.Kind != MappingNode) {
+				return Context{}, fmt.Errorf("can only pivot elements of !!seq or !!map types, received a %v that is not one", tag)
+			}
+		}
 		var pivot *CandidateNode
 		switch tag {
 		case "!!seq":
